@@ -6,15 +6,19 @@ from lib import campaign as K
 
 META = {
     "claimed": True,
-    "technique": "Lean 4 invariant proof (18-clause invariant, induction over all interleavings) of the count-based two-round termination detection + trace acceptance of real runs under simmpi",
-    "text": "Theorem C02_exit_implies_quiescent over YgmVerif.Barrier proves, for every number of ranks and every interleaving of issue/start/finish/callback/enter/"
-            "contribute/result/exit steps, that when the exit rule (two consecutive identical, balanced global count pairs) enables the first exit, every rank has entered, "
-            "no message is undelivered, no handler runs and no callback is pending. Real histories (handler begin/end, barrier enter/exit, the operands and results of every "
-            "MPI_Iallreduce taken from the simulated wire) are replayed through the model's step: contributed counts must equal the model's counters and every exit must be "
-            "justified by the rule. Directly evaluated per run: no handler of epoch <= e after barrier e returned anywhere; all ranks entered before any exit; final "
-            "destructor barrier executes the trailing asyncs.",
-    "note": "Trusted: Lean kernel + standard axioms; MPI_Iallreduce's semantics (sum of the k-th contributions, delivered after all contributed) is MPI's and assumed; "
-            "the theorem covers one barrier epoch from an arbitrary balanced state (epochs of real runs are checked one by one by the acceptor); schedules sampled.",
+    "technique": "Lean 4 invariant proofs (single-epoch 18-clause and multi-epoch 22-clause invariants, induction over all interleavings) of the count-based two-round "
+                 "termination detection, composed with the message-movement model + trace acceptance of real runs under simmpi",
+    "text": "C02ME_exit_implies_quiescent (YgmVerif.BarrierME): for every number of ranks and every interleaving of issue/start/finish/callback/enter/contribute/result/exit "
+            "steps over ANY number of overlapping barrier epochs, when the exit rule (two consecutive identical, balanced global count pairs) enables the first return of barrier e, "
+            "every rank is inside barrier e, no message is undelivered, no handler runs, no callback is pending; C02_exit_implies_quiescent is the same for one epoch from an arbitrary "
+            "balanced start state. C02C01_exit_implies_all_executed (YgmVerif.Comm = Deliver x BarrierME): at that moment every async issued so far by main programs, handlers and "
+            "callbacks has executed exactly once on its destination; C02C01_hello_world is the README case. Real histories (handler begin/end, barrier enter/exit, the operands and "
+            "results of every MPI_Iallreduce from the simulated wire) are replayed through both models' step functions, epoch by epoch and as a whole; contributed counts must equal the "
+            "model's counters and every exit must be justified. Directly evaluated per run: no handler of epoch <= e after barrier e returned anywhere; all ranks entered before any "
+            "exit; container destructors (map/set/array/disjoint_set/bag, 1..6 ranks) complete all pending work; a directed + delay-bounded systematic search for the classic "
+            "single-round counter-example schedule.",
+    "note": "Trusted: Lean kernel + propext/Classical.choice/Quot.sound; MPI_Iallreduce's semantics (sum of the k-th contributions, delivered after all contributed) is MPI's and "
+            "assumed; the models are tied to comm.ipp on the explored runs only; schedules are sampled by seeded policies plus single/double deviations of base schedules.",
 }
 
 WANT = ("delivery", "barrier")
